@@ -115,9 +115,9 @@ def extra(ctx):
         if key in seen:
             continue
         seen.add(key)
-        what = "%s of %s in %s at %s without its guard %s (held: %s; reached from %s)" % (
+        what = "%s of %s in %s at %s without its guard %s%s (held: %s; reached from %s)" % (
             "write" if a.get("write") else "read", a.get("field", key.split("@")[0]), a.get("fn", "?"), pos,
-            " + ".join(a.get("guard") or ["?"]), ", ".join(a.get("held") or []) or "nothing", a.get("root", "?"))
+            " + ".join(a.get("guard") or ["?"]), " in write mode" if a.get("write") else "", ", ".join(a.get("held") or []) or "nothing", a.get("root", "?"))
         ctx.fail("property-failure", what, finding_key=key, failing_input_found=True,
                  detail={"case": {"id": "access-%d" % i, "desc": {"kind": "unguarded access", "key": key, "pos": pos,
                                                                    "access": a}}})
